@@ -744,3 +744,16 @@ Proof.
   destruct Hz as [Hn Hz]. destruct H as [Hl' Hm]. specialize (IH f w' Hl' Hz). specialize (Hm Hn). lia.
 Qed.
 
+
+(* ---------- Example: a cache that answers instantly ----------
+   Every Serial/Reset Query is answered at once by Cache Reset: RESET -> SYNC -> NO_INCR -> RESET -> ... without the
+   clock moving.  Legitimate (each round consumes a PDU), and bounded: the measure falls at every iteration. *)
+Definition st_CRST : list byte := [1;8;0;0;0;0;0;8].
+Definition st_w0 : world :=
+  mkW (upd_st (init_sock 3600 7200 600 0) c_RTR_CONNECTING) [] [] [EvData st_CRST; EvData st_CRST; EvData st_CRST] [true] [] 1000 [].
+
+Example zero_time_chain :
+  live st_w0 /\ zero_time_run 10 100 st_w0 /\
+  map (fun n => measure (run_fsm n 100 st_w0)) (seq 0 11) = [112; 110; 108; 75; 74; 72; 39; 38; 36; 3; 2]%nat /\
+  map (fun n => now (run_fsm n 100 st_w0)) (seq 0 11) = repeat 1000 11.
+Proof. vm_compute. repeat split; reflexivity. Qed.
